@@ -242,7 +242,12 @@ class Metadata(CbMixin, ProgMixin):
         self.meta_version = info.get("meta version", 1)
         self.pieces = info.get("pieces", bytes())
         if self.meta_version == 2:
-            self._parse_tree(info["file tree"], [self.name])
+            tree = info["file tree"]
+            if list(tree) == [self.name] and "" in tree[self.name]:
+                # single file torrent: the only entry is the file itself
+                self._parse_tree(tree, [])
+            else:
+                self._parse_tree(tree, [self.name])
         elif "length" in info:
             self.length += info["length"]
             self.is_file = True
@@ -324,7 +329,7 @@ class Metadata(CbMixin, ProgMixin):
         for key, val in tree.items():
             if "" in val:
                 self.filenames.add(key)
-                path = Path(os.path.join(*partials))
+                path = Path(os.path.join(*partials)) if partials else Path("")
                 full = Path(os.path.join(path, key))
                 length = val[""]["length"]
                 root = val[""].get("pieces root")
